@@ -261,7 +261,7 @@ func (c *checker) compareCall(i int, e mcall, o rcall) bool {
 			c.fail("text-object", fmt.Sprintf("call %d: a different *Text was rendered", i))
 		}
 	case kImage:
-		if o.img != theImage && !reflect.DeepEqual(o.img, theImage) {
+		if o.img != theImage && o.img != subImage && !reflect.DeepEqual(o.img, theImage) && !reflect.DeepEqual(o.img, subImage) {
 			c.fail("image-object", fmt.Sprintf("call %d: a different image was rendered", i))
 		}
 	}
@@ -1042,6 +1042,7 @@ var notCore = []string{
 	"SetStrokeColor(rgba(0,64,0,128))", "SetStrokeJoiner(RoundJoin)", "SetDashes(-0.25, 0.75)", "SetFillRule(NonZero)", "ResetStyle()",
 	"DrawPath(0,0, M0 0L0.5 0)", "ReflectX()", "ReflectY()", "ReflectYAbout(1.5)", "ScaleAbout(2,0.5,1,1)", "ShearAbout(0,0.5,1,2)", "SetZIndex(0)",
 	"CubeTo(1,2,3,2,4,0)", "ArcTo(2,1,30,false,true,4,2)", "Arc(1,1,0,0,90)", "SetDashes(-0.6, 0.75)",
+	"DrawImage(2,0.5, 3x2px sub-image with bounds from (2,1), 2px/mm)",
 }
 
 func letterSets() (full, core []int) {
